@@ -2,6 +2,7 @@ import StepModel.GenFiles
 import StepModel.GenCxxPassLemmas
 import StepModel.GenCollect
 import StepModel.GenCxxMarks
+import StepModel.GenSelectOrderLemmas
 /-!
 # C17 — the build-time scanner predicts exactly the files the C++ generator writes
 
@@ -442,16 +443,18 @@ theorem C17_one_pass_needs_last_case_witness :
 
 /-! ## directory / library name -/
 
-/-- If the scanner's short name of every schema is `sdai_<schema name>` (the case when the schema name is shorter than
-    the file's base name and than its `data/` directory), distinct schemas get distinct build directories,
-    PROJECT()/library names and CMakeLists.txt files. -/
-theorem C17_dirs_distinct_partial (f : SchemaFile)
-    (hshort : ∀ s ∈ f.schemas, Scanner.makeShortName f.path s.name = "sdai_" ++ s.name)
-    (hnames : (f.schemas.map (·.name)).Nodup) :
-    (Scanner.run f).2.Nodup := by
-  have : (Scanner.run f).2 = f.schemas.map (fun s => Scanner.makeShortName f.path s.name) := by
-    simp [Scanner.run, Scanner.cmake, List.map_map, Function.comp_def]
-  rw [this]
+/-- the stdout lines of the scanner are the short names of the schemas it describes -/
+theorem runWith_names (p k : Bool) (f : SchemaFile) :
+    (Scanner.runWith p k f).2 = (f.schemas.filter fun s => !(k && s.entities.isEmpty && s.types.isEmpty)).map
+      (fun s => Scanner.shortNameIn p f.schemas.length f.path s.name) := by
+  simp [Scanner.runWith, Scanner.cmake, List.map_map, Function.comp_def]
+
+theorem dirs_distinct_of (p k : Bool) (f : SchemaFile)
+    (hshort : ∀ s ∈ f.schemas, Scanner.shortNameIn p f.schemas.length f.path s.name = "sdai_" ++ s.name)
+    (hnames : (f.schemas.map (·.name)).Nodup) : (Scanner.runWith p k f).2.Nodup := by
+  rw [runWith_names]
+  refine List.Nodup.sublist (List.Sublist.map _ List.filter_sublist) ?_
+  generalize f.schemas.length = n at hshort
   generalize f.schemas = ss at hshort hnames
   induction ss with
   | nil => exact List.nodup_nil
@@ -467,13 +470,39 @@ theorem C17_dirs_distinct_partial (f : SchemaFile)
       exact String.toList_inj.mp (List.append_cancel_left this)
     exact hnames.1 (List.mem_map.mpr ⟨b, hb, this⟩)
 
-/-- The full statement fails on the current code — two schemas in a file whose base name is shorter than both schema
+/-- If the scanner's short name of every schema is `sdai_<schema name>` (under the rule found in the tree: always when the
+    schema name is shorter than the file's base name and than its `data/` directory; with fix C17-3 also for every file that
+    holds several schemas), distinct schemas get distinct build directories, PROJECT()/library names and CMakeLists.txt files.
+    **Excluded**: files for which that premise fails — under the legacy rule a multi-schema file whose base name or data
+    directory is shorter than the schema names (`C17_dir_collision_witness`). -/
+theorem C17_dirs_distinct_partial (f : SchemaFile)
+    (hshort : ∀ s ∈ f.schemas, Scanner.shortNameIn shortNamePerSchema f.schemas.length f.path s.name = "sdai_" ++ s.name)
+    (hnames : (f.schemas.map (·.name)).Nodup) :
+    (Scanner.run f).2.Nodup :=
+  dirs_distinct_of _ _ f hshort hnames
+
+/-- **With the per-schema short name (fix C17-3) every file with several schemas gets one directory per schema** — whatever its
+    path, with or without the codeless-schema skip; a file with one schema has one directory anyway. -/
+theorem C17_multi_schema_dirs_distinct (k : Bool) (f : SchemaFile) (hnames : (f.schemas.map (·.name)).Nodup) :
+    (Scanner.runWith true k f).2.Nodup := by
+  by_cases hn : f.schemas.length > 1
+  · exact dirs_distinct_of true k f (fun s _ => by simp [Scanner.shortNameIn, hn]) hnames
+  · rw [runWith_names]
+    refine List.Nodup.sublist (List.Sublist.map _ List.filter_sublist) ?_
+    match h : f.schemas with
+    | [] => simp
+    | [a] => simp
+    | a :: b :: r => rw [h] at hn; simp at hn
+
+/-- Under the legacy rule the statement fails — two schemas in a file whose base name is shorter than both schema
     names get the *same* directory: the second CMakeLists.txt replaces the first, the directory is printed twice.
     (Replayed on the real scanner by checks/c17.py, input `two-schemas-short-file-name`.) -/
 theorem C17_dir_collision_witness :
     let f : SchemaFile := { path := "/w/ms.exp", schemas := [{ name := "first_schema", decls := [.entity { name := "ea" }] },
                                                               { name := "second_schema", decls := [.entity { name := "eb" }] }] }
-    (Scanner.run f).2 = ["sdai_ms", "sdai_ms"] ∧ (Scanner.run f).1.map (fun p => (p.1, p.2.schemaName)) = [("sdai_ms", "second_schema")] := by
+    (Scanner.runWith false false f).2 = ["sdai_ms", "sdai_ms"] ∧
+    (Scanner.runWith false false f).1.map (fun p => (p.1, p.2.schemaName)) = [("sdai_ms", "second_schema")] ∧
+    (Scanner.runWith true false f).2 = ["sdai_first_schema", "sdai_second_schema"] := by
   decide
 
 /-- A schema that multpass.c prints in two passes (suffixes 1 and 2) gets `Sdai<S>_1.h … Sdai<S>_2.cc`; the scanner
@@ -492,8 +521,40 @@ theorem C17_empty_schema_witness :
     let f : SchemaFile := { path := "/w/empty_schema_file.exp", schemas := [s] }
     (Cxx.passes f).map (fun pf => pf s) = some [] ∧
     Cxx.created f (fun _ => []) = some fixedFiles ∧
-    "SdaiONLY_FUN.h" ∈ (Scanner.cmake f.path s).listed ∧ "SdaiONLY_FUN.h" ∉ fixedFiles := by
+    "SdaiONLY_FUN.h" ∈ (Scanner.cmake f.path s).listed ∧ "SdaiONLY_FUN.h" ∉ fixedFiles ∧
+    (Scanner.runWith false false f).2 = ["sdai_only_fun"] ∧      -- legacy: a build description is written
+    (Scanner.runWith false true f).2 = [] := by                   -- with the skip (fix C17-4): none
   decide
+
+theorem mem_final (cs : List Scanner.CMake) (acc : List (String × Scanner.CMake)) (x : String × Scanner.CMake)
+    (h : x ∈ cs.foldl (fun acc c => (acc.filter (fun p => p.1 != c.shortName)) ++ [(c.shortName, c)]) acc) :
+    x ∈ acc ∨ ∃ c ∈ cs, x = (c.shortName, c) := by
+  induction cs generalizing acc with
+  | nil => exact Or.inl h
+  | cons c r ih =>
+    rcases ih _ h with h1 | ⟨d, hd, e⟩
+    · rcases List.mem_append.mp h1 with h2 | h2
+      · exact Or.inl (List.mem_filter.mp h2).1
+      · exact Or.inr ⟨c, List.mem_cons_self, by simpa using h2⟩
+    · exact Or.inr ⟨d, List.mem_cons_of_mem _ hd, e⟩
+
+/-- **With the codeless-schema skip (fix C17-4) every build description belongs to a schema that has a type or an entity** —
+    exactly the schemas `print_schemas_separate` hands to `SCHEMAprint` (`C17_passes_nonempty`): nothing is listed for a schema
+    exp2cxx never prints. -/
+theorem C17_described_schemas_have_code (p : Bool) (f : SchemaFile) :
+    ∀ d ∈ (Scanner.runWith p true f).1, ∃ s ∈ f.schemas, d.2.schemaName = s.name ∧ (s.types ≠ [] ∨ s.entities ≠ []) := by
+  intro d hd
+  unfold Scanner.runWith at hd
+  rcases mem_final _ [] d hd with h | ⟨c, hc, e⟩
+  · cases h
+  · obtain ⟨s, hs, rfl⟩ := List.mem_map.mp hc
+    have hf := List.mem_filter.mp hs
+    refine ⟨s, hf.1, by rw [e]; rfl, ?_⟩
+    have h2 := hf.2
+    simp only [Bool.true_and, Bool.not_eq_true', Bool.and_eq_false_iff, List.isEmpty_eq_false_iff] at h2
+    rcases h2 with h2 | h2
+    · exact Or.inr h2
+    · exact Or.inl h2
 
 /-- … while every schema that has a type or an entity and no interface clause is printed exactly once, suffix 0. -/
 theorem C17_passes_nonempty (f : SchemaFile) (pf : Schema → List Nat) (h : Cxx.passes f = some pf) (s : Schema)
@@ -525,6 +586,32 @@ theorem C17_collect_whileLess_witness (lt : String → String → Bool) (hirr : 
     ∀ fuel, Collect.prune lt .whileLess fuel
       [{ id := 1, name := "e_el", dependent := false }, { id := 2, name := "e_el", dependent := true }] 0 = none :=
   Collect.prune_whileLess_hangs lt hirr _ _ rfl (by decide) rfl rfl
+
+/-! ## the select loop: every select exactly once, at list level -/
+
+/-- **No select type is emitted twice** — whatever the item structure (cycles included), the tags left by earlier schemas of the
+    file and the nesting bound: the events of the select loop of `SCOPEPrint` + `TYPEselect_print` (the class of a select =
+    type/Sdai<T>.h/.cc and its `#include`; the typedef block of a renamed select) carry pairwise different type names, and only
+    tagged types are emitted. -/
+theorem C17_selects_emitted_at_most_once (G : String → Option SelOrder.Sel) (fuel : Nat) (roots : List String) (st : SelOrder.St)
+    (g : SelOrder.Good st) : SelOrder.Good (SelOrder.visitAll G fuel roots st) :=
+  SelOrder.good_of_step (SelOrder.visitAll_step G fuel roots st) g
+
+/-- **Every select of the schema is emitted** (hence exactly once): for a file whose select types are `N` (every renamed original
+    and every select item among them), each select the loop starts from that had no tag yet is in the output when the loop ends;
+    the recursion never runs out of depth with `|N| + 1` levels. -/
+theorem C17_selects_all_emitted (G : String → Option SelOrder.Sel) (N : List String) (hc : SelOrder.Closed N G)
+    (roots : List String) (hr : ∀ x ∈ roots, x ∈ N) (st : SelOrder.St) :
+    ∀ t ∈ roots, t ∉ st.tagged → (G t).isSome = true →
+      t ∈ (SelOrder.visitAll G (N.length + 1) roots st).out.map SelOrder.Ev.name :=
+  SelOrder.visitAll_complete G N hc roots hr st
+
+/-- the order is not the dictionary order: a select whose item is a later select is emitted after it, and a renamed select after
+    its original (`TYPE sel_b = SELECT (sel_z …)`, `TYPE sel_a = sel_b`; dictionary order a, b, z) -/
+theorem C17_select_order_witness :
+    (SelOrder.visitAll (fun t => if t = "sel_a" then some (.renamed "sel_b") else if t = "sel_b" then some (.items ["sel_z"])
+                                 else if t = "sel_z" then some (.items []) else none) 4 ["sel_a", "sel_b", "sel_z"] {}).out
+      = [.cls "sel_z", .cls "sel_b", .typedefs "sel_a"] := by decide
 
 /-! ## the marks of the pass logic belong to the pass logic -/
 
